@@ -121,7 +121,7 @@ func (e *errnil) errFact(fn *ssa.Function, b, pred *ssa.BasicBlock, v ssa.Value)
 			return nfNil
 		}
 	case *ssa.Call:
-		if cal := x.Call.StaticCallee(); cal != nil {
+		if cal := model.Unthunk(x.Call.StaticCallee()); cal != nil {
 			n := cal.String()
 			if n == "fmt.Errorf" || n == "errors.New" {
 				return nfNonNil
@@ -146,7 +146,7 @@ func (e *errnil) resFact(fn *ssa.Function, b, pred *ssa.BasicBlock, v ssa.Value)
 		}
 	case *ssa.Extract:
 		if call, ok := x.Tuple.(*ssa.Call); ok {
-			cal := call.Call.StaticCallee()
+			cal := model.Unthunk(call.Call.StaticCallee())
 			if cal != nil && e.verified[cal] {
 				// the error (or success flag) of the same call decides
 				res := call.Call.Signature().Results()
@@ -251,7 +251,7 @@ func runErrNil(m *model.Model, s *ob.Set) {
 			// a direct tail call `return f(...)` of a verified function passes its contract through
 			if len(ret.Results) > 0 {
 				if ex, ok := ret.Results[0].(*ssa.Extract); ok {
-					if call, ok := ex.Tuple.(*ssa.Call); ok && e.verified[call.Call.StaticCallee()] {
+					if call, ok := ex.Tuple.(*ssa.Call); ok && e.verified[model.Unthunk(call.Call.StaticCallee())] {
 						all := true
 						for i, v := range ret.Results {
 							ex2, ok := v.(*ssa.Extract)
@@ -261,7 +261,7 @@ func runErrNil(m *model.Model, s *ob.Set) {
 						}
 						if all && name != "(*Decimal).Parse" {
 							n++
-							s.Ok(R, fmt.Sprintf("%s/return#%d", name, n), m.InstrPos(ret), "returns the results of "+m.FuncName(call.Call.StaticCallee())+" unchanged")
+							s.Ok(R, fmt.Sprintf("%s/return#%d", name, n), m.InstrPos(ret), "returns the results of "+m.FuncName(model.Unthunk(call.Call.StaticCallee()))+" unchanged")
 							continue
 						}
 					}
@@ -317,7 +317,7 @@ func parseConsumed(m *model.Model, fn *ssa.Function, b, pred *ssa.BasicBlock) bo
 	for _, bb := range fn.Blocks {
 		for _, in := range bb.Instrs {
 			if c, ok := in.(*ssa.Call); ok {
-				if cal := c.Call.StaticCallee(); cal != nil && m.FuncName(cal) == "(*Decimal).scan" {
+				if cal := model.Unthunk(c.Call.StaticCallee()); cal != nil && m.FuncName(cal) == "(*Decimal).scan" {
 					scanCall = c
 				}
 			}
@@ -338,7 +338,7 @@ func parseConsumed(m *model.Model, fn *ssa.Function, b, pred *ssa.BasicBlock) bo
 				continue
 			}
 			nm := ""
-			if cal := call.Call.StaticCallee(); cal != nil {
+			if cal := model.Unthunk(call.Call.StaticCallee()); cal != nil {
 				nm = cal.Name()
 			} else if call.Call.IsInvoke() {
 				nm = call.Call.Method.Name()
@@ -370,7 +370,7 @@ func parseConsumed(m *model.Model, fn *ssa.Function, b, pred *ssa.BasicBlock) bo
 			if !ok || !m.InstrDominates(scanCall, c) {
 				return false
 			}
-			cal := c.Call.StaticCallee()
+			cal := model.Unthunk(c.Call.StaticCallee())
 			return cal != nil && cal.Name() == "Len" && cal.Signature.Recv() != nil && cal.Pkg != nil && (cal.Pkg.Pkg.Path() == "strings" || cal.Pkg.Pkg.Path() == "bytes")
 		}
 		if e, ok := zeroOnEdge(bo, isLen); ok {
@@ -449,11 +449,22 @@ func eofFact(m *model.Model, fn *ssa.Function, b, pred *ssa.BasicBlock, v ssa.Va
 func runErrDrop(m *model.Model, s *ob.Set) {
 	const R = "ERRDROP"
 	errT := types.Universe.Lookup("error").Type()
-	// explicit discards `_ = r.UnreadByte()`: function -> allowed number (with reason)
-	allowed := map[string]int{"scanSign": 1, "scanExponent": 2}
+	// explicit discards `_ = r.UnreadByte()` are accepted where a ReadByte of the same function
+	// dominates them: putting back the byte that was just read cannot fail
 	for _, n := range []string{"(*Decimal).scan", "(*Decimal).Parse", "dec.scan", "scanExponent", "scanSign", "(*Decimal).UnmarshalText", "(*Decimal).Scan", "(*Decimal).SetString", "byteReader.ReadByte", "byteReader.UnreadByte"} {
-		fn := m.Lookup(n)
+		fn := m.TryLookup(n)
+		if fn == nil {
+			continue
+		}
 		live := m.Live(fn)
+		var reads []ssa.Instruction
+		for _, b := range fn.Blocks {
+			for _, in := range b.Instrs {
+				if c, ok := in.(*ssa.Call); ok && c.Call.IsInvoke() && c.Call.Method.Name() == "ReadByte" {
+					reads = append(reads, in)
+				}
+			}
+		}
 		dropped := map[string][]string{}
 		total := 0
 		for _, b := range fn.Blocks {
@@ -488,10 +499,21 @@ func runErrDrop(m *model.Model, s *ob.Set) {
 				}
 				if !used {
 					cn := "<dynamic>"
-					if cal := call.Call.StaticCallee(); cal != nil {
+					if cal := model.Unthunk(call.Call.StaticCallee()); cal != nil {
 						cn = cal.Name()
 					} else if call.Call.IsInvoke() {
 						cn = call.Call.Method.Name()
+					}
+					if cn == "UnreadByte" {
+						behind := false
+						for _, rd := range reads {
+							if m.InstrDominates(rd, call) {
+								behind = true
+							}
+						}
+						if behind {
+							continue
+						}
 					}
 					dropped[cn] = append(dropped[cn], m.InstrPos(call))
 				}
@@ -499,9 +521,6 @@ func runErrDrop(m *model.Model, s *ob.Set) {
 		}
 		var bad []string
 		for cn, ps := range dropped {
-			if cn == "UnreadByte" && len(ps) <= allowed[fn.Name()] {
-				continue
-			}
 			sort.Strings(ps)
 			bad = append(bad, fmt.Sprintf("error of %s dropped at %s", cn, strings.Join(ps, ", ")))
 		}
@@ -531,6 +550,10 @@ func hasRealReferrer(v ssa.Value) bool {
 func runScanShape(m *model.Model, s *ob.Set) {
 	const R = "SCANSHAPE"
 	runScanGrammar(m, s)
+	runScanAutomaton(m, s)
+	runScanExponents(m, s)
+	runScanFullWord(m, s)
+	runScanTokenFilter(m, s)
 	scan := m.Lookup("(*Decimal).scan")
 	dscan := m.Lookup("dec.scan")
 	pos := m.Pos(scan.Pos())
@@ -644,7 +667,7 @@ func runScanShape(m *model.Model, s *ob.Set) {
 			}
 			switch x := stripConv(v).(type) {
 			case *ssa.Call:
-				if c2 := x.Call.StaticCallee(); c2 != nil && m.FuncName(c2) == "(*Decimal).Prec" {
+				if c2 := model.Unthunk(x.Call.StaticCallee()); c2 != nil && m.FuncName(c2) == "(*Decimal).Prec" {
 					return true
 				}
 			case *ssa.UnOp:
@@ -707,7 +730,7 @@ func runScanShape(m *model.Model, s *ob.Set) {
 		for _, b := range scan.Blocks {
 			for _, in := range b.Instrs {
 				if c, ok := in.(*ssa.Call); ok {
-					if cal := c.Call.StaticCallee(); cal != nil && m.FuncName(cal) == "scanExponent" {
+					if cal := model.Unthunk(c.Call.StaticCallee()); cal != nil && m.FuncName(cal) == "scanExponent" {
 						se = c
 					}
 				}
@@ -947,6 +970,11 @@ func runFmtShape(m *model.Model, s *ob.Set) {
 	const R = "FMTSHAPE"
 	runFmtBShape(m, s)
 	runFmtLayout(m, s)
+	runFormatTable(m, s)
+	runAppendTable(m, s)
+	runEmitTables(m, s)
+	runWriteCount(m, s)
+	runFmtFSamples(m, s)
 	app := m.Lookup("(*Decimal).Append")
 	// SHORTEST: MarshalText -> Append(buf, fmt in {e,E,f,g,G}, prec < 0)
 	{
@@ -972,7 +1000,7 @@ func runFmtShape(m *model.Model, s *ob.Set) {
 			if !ok {
 				continue
 			}
-			cal := call.Call.StaticCallee()
+			cal := model.Unthunk(call.Call.StaticCallee())
 			if cal == nil || m.FuncName(cal) != "(*Decimal).Set" {
 				continue
 			}
@@ -991,7 +1019,7 @@ func runFmtShape(m *model.Model, s *ob.Set) {
 			if !ok {
 				break
 			}
-			cal := c.Call.StaticCallee()
+			cal := model.Unthunk(c.Call.StaticCallee())
 			if cal == nil {
 				break
 			}
@@ -1012,7 +1040,7 @@ func runFmtShape(m *model.Model, s *ob.Set) {
 					if !ok || !m.InstrDominates(c, setCall) {
 						continue
 					}
-					cal := c.Call.StaticCallee()
+					cal := model.Unthunk(c.Call.StaticCallee())
 					if cal == nil || len(c.Call.Args) == 0 {
 						continue
 					}
@@ -1046,8 +1074,11 @@ func runFmtShape(m *model.Model, s *ob.Set) {
 		// count change). Values computed before the merge may reach code after it only through
 		// the merge's φs, and on the edge that comes from the copying block only if they were
 		// recomputed from the copy.
-		if why := fmtStale(m, app, setCall); why != "" {
+		tableSpoke := appendTableDecided(m)
+		if why := fmtStale(m, app, setCall); why != "" && !tableSpoke {
 			s.Bad(R, "(*Decimal).Append/stale-after-round", m.InstrPos(setCall), why)
+		} else if why != "" {
+			s.Ok(R, "(*Decimal).Append/stale-after-round", m.InstrPos(setCall), "decided path by path by Append/digits (a value of the unrounded operand reaches the code behind the copy only on paths that do not copy)")
 		} else {
 			s.Ok(R, "(*Decimal).Append/stale-after-round", m.InstrPos(setCall), "no value read from the unrounded operand is used after the rounding copy replaced it")
 		}
@@ -1080,7 +1111,11 @@ func runFmtShape(m *model.Model, s *ob.Set) {
 				okGuard = true
 			}
 		}
-		s.Check(okGuard, R, "(*Decimal).Append/shortest-no-rounding", m.InstrPos(setCall), "copy made only for prec >= 0", "with a negative precision (shortest representation) Append must not round")
+		if !okGuard && tableSpoke {
+			s.Ok(R, "(*Decimal).Append/shortest-no-rounding", m.InstrPos(setCall), "decided path by path by Append/digits (no path with a negative precision makes the copy)")
+		} else {
+			s.Check(okGuard, R, "(*Decimal).Append/shortest-no-rounding", m.InstrPos(setCall), "copy made only for prec >= 0", "with a negative precision (shortest representation) Append must not round")
+		}
 		// PREC0-ARG
 		if precCall == nil {
 			s.Bad(R, "(*Decimal).Append/PREC0-ARG", m.InstrPos(setCall), "the rounding copy is not given a precision")
@@ -1093,15 +1128,31 @@ func runFmtShape(m *model.Model, s *ob.Set) {
 	{
 		parse := m.Lookup("(*Decimal).Parse")
 		read := map[string]bool{}
-		for _, b := range parse.Blocks {
-			for _, in := range b.Instrs {
-				if bo, ok := in.(*ssa.BinOp); ok && bo.Op == token.EQL {
-					if c, ok := bo.Y.(*ssa.Const); ok && c.Value != nil && c.Value.Kind() == constant.String {
-						read[constant.StringVal(c.Value)] = true
+		// the comparisons may sit in a helper of Parse (parseInf(s) (neg, ok bool)), and be written
+		// as == or as != (an early return for everything else)
+		seenFn := map[*ssa.Function]bool{}
+		var collect func(fn *ssa.Function, d int)
+		collect = func(fn *ssa.Function, d int) {
+			if fn == nil || d == 0 || seenFn[fn] || !m.InDecimalPkg(fn) {
+				return
+			}
+			seenFn[fn] = true
+			for _, b := range fn.Blocks {
+				for _, in := range b.Instrs {
+					if bo, ok := in.(*ssa.BinOp); ok && (bo.Op == token.EQL || bo.Op == token.NEQ) {
+						for _, o := range []ssa.Value{bo.X, bo.Y} {
+							if c, ok := o.(*ssa.Const); ok && c.Value != nil && c.Value.Kind() == constant.String {
+								read[constant.StringVal(c.Value)] = true
+							}
+						}
+					}
+					if cal, _ := model.Callee(in); cal != nil {
+						collect(cal, d-1)
 					}
 				}
 			}
 		}
+		collect(parse, 3)
 		var bad []string
 		nlit := 0
 		for _, b := range app.Blocks {
@@ -1125,11 +1176,37 @@ func runFmtShape(m *model.Model, s *ob.Set) {
 		// exponent markers written by fmtB/fmtP/fmtE are among those scanExponent reads
 		se := m.Lookup("scanExponent")
 		marks := map[int64]bool{}
+		// the scanner and the scalar helpers of this package it hands a byte to (the classification
+		// of the exponent letter may live in one)
+		seFns := []*ssa.Function{se}
 		for _, b := range se.Blocks {
 			for _, in := range b.Instrs {
-				if bo, ok := in.(*ssa.BinOp); ok && bo.Op == token.EQL {
-					if k, ok := model.ConstInt(bo.Y); ok && (k >= 'A' && k <= 'Z' || k >= 'a' && k <= 'z') {
-						marks[k] = true
+				if cal, _ := model.Callee(in); cal != nil && m.InDecimalPkg(cal) && len(cal.Blocks) > 0 && cal.Signature.Recv() == nil && cal != se {
+					seFns = append(seFns, cal)
+				}
+			}
+		}
+		for _, f := range seFns {
+			for _, b := range f.Blocks {
+				for _, in := range b.Instrs {
+					// a package-level table indexed by the byte: its non-zero entries are the letters
+					if ia, ok := in.(*ssa.IndexAddr); ok {
+						if g, ok := ia.X.(*ssa.Global); ok {
+							for k := int64('A'); k <= 'z'; k++ {
+								if (k >= 'A' && k <= 'Z') || (k >= 'a' && k <= 'z') {
+									if v, ok := m.ConstTableLookup(g, []int64{k}); ok && v != nil && v.Kind() == constant.Int && constant.Sign(v) != 0 {
+										marks[k] = true
+									}
+								}
+							}
+						}
+					}
+					if bo, ok := in.(*ssa.BinOp); ok && (bo.Op == token.EQL || bo.Op == token.NEQ) {
+						for _, side := range []ssa.Value{bo.X, bo.Y} {
+							if k, ok := model.ConstInt(side); ok && (k >= 'A' && k <= 'Z' || k >= 'a' && k <= 'z') {
+								marks[k] = true
+							}
+						}
 					}
 				}
 			}
@@ -1195,21 +1272,40 @@ func runFmtShape(m *model.Model, s *ob.Set) {
 		verbs := map[int64]bool{}
 		flags := map[int64]bool{}
 		meths := map[string]bool{}
+		flagComputed := false
+		// Format and the helpers of this package it hands the fmt.State to (sign, padding)
+		fmtFns := []*ssa.Function{fn}
 		for _, b := range fn.Blocks {
 			for _, in := range b.Instrs {
-				switch x := in.(type) {
-				case *ssa.BinOp:
-					if x.Op == token.EQL && x.X == ssa.Value(fn.Params[2]) {
-						if k, ok := model.ConstInt(x.Y); ok {
-							verbs[k] = true
+				if cal, c := model.Callee(in); cal != nil && m.InDecimalPkg(cal) && len(cal.Blocks) > 0 && cal != fn {
+					for _, a := range c.Args {
+						if a == ssa.Value(fn.Params[1]) {
+							fmtFns = append(fmtFns, cal)
+							break
 						}
 					}
-				case *ssa.Call:
-					if x.Call.IsInvoke() {
-						meths[x.Call.Method.Name()] = true
-						if x.Call.Method.Name() == "Flag" {
-							if k, ok := model.ConstInt(x.Call.Args[0]); ok {
-								flags[k] = true
+				}
+			}
+		}
+		for _, ff := range fmtFns {
+			for _, b := range ff.Blocks {
+				for _, in := range b.Instrs {
+					switch x := in.(type) {
+					case *ssa.BinOp:
+						if ff == fn && x.Op == token.EQL && x.X == ssa.Value(fn.Params[2]) {
+							if k, ok := model.ConstInt(x.Y); ok {
+								verbs[k] = true
+							}
+						}
+					case *ssa.Call:
+						if x.Call.IsInvoke() {
+							meths[x.Call.Method.Name()] = true
+							if x.Call.Method.Name() == "Flag" {
+								if k, ok := model.ConstInt(x.Call.Args[0]); ok {
+									flags[k] = true
+								} else {
+									flagComputed = true // asked for a flag taken from a table or a loop
+								}
 							}
 						}
 					}
@@ -1222,10 +1318,27 @@ func runFmtShape(m *model.Model, s *ob.Set) {
 				missing = append(missing, "%"+string(v))
 			}
 		}
-		s.Check(len(missing) == 0, R, "(*Decimal).Format/verbs", m.Pos(fn.Pos()), "cases for e E f F g G b p v s", "Format has no case for "+strings.Join(missing, " "))
+		if len(verbs) == 0 {
+			// the verb is not compared with constants at all (a table lookup): which verbs are
+			// supported is decided by the cells Format/verb[…], not here
+			s.Note(R, "(*Decimal).Format/verbs", m.Pos(fn.Pos()), "the verb is not dispatched by comparisons with constants (see Format/verb[…])")
+		} else {
+			s.Check(len(missing) == 0, R, "(*Decimal).Format/verbs", m.Pos(fn.Pos()), "cases for e E f F g G b p v s", "Format has no case for "+strings.Join(missing, " "))
+		}
+		// s.Flag handed on as a method value: which flags are asked for is then not visible here
+		flagValue := false
+		for _, b := range fn.Blocks {
+			for _, in := range b.Instrs {
+				if mc, ok := in.(*ssa.MakeClosure); ok {
+					if f, ok := mc.Fn.(*ssa.Function); ok && strings.HasPrefix(f.Name(), "Flag$") {
+						flagValue = true
+					}
+				}
+			}
+		}
 		var mf []string
 		for _, f := range "+ 0-" {
-			if !flags[int64(f)] {
+			if !flags[int64(f)] && !flagValue && !flagComputed {
 				mf = append(mf, fmt.Sprintf("'%c'", f))
 			}
 		}
@@ -1314,7 +1427,7 @@ func provablyNonZero(m *model.Model, v ssa.Value, at ssa.Instruction, depth int)
 		}
 		return true, "all phi edges"
 	case *ssa.Call:
-		if cal := x.Call.StaticCallee(); cal != nil && cal.Name() == "max" {
+		if cal := model.Unthunk(x.Call.StaticCallee()); cal != nil && cal.Name() == "max" {
 			return false, "max(…, 0) can be 0"
 		}
 	}
@@ -1407,7 +1520,7 @@ func fmtStale(m *model.Model, fn *ssa.Function, setCall *ssa.Call) string {
 				return true
 			}
 		case *ssa.Call:
-			if cal := x.Call.StaticCallee(); cal != nil && m.IsDecMethod(cal) && len(x.Call.Args) > 0 && x.Call.Args[0] == px {
+			if cal := model.Unthunk(x.Call.StaticCallee()); cal != nil && m.IsDecMethod(cal) && len(x.Call.Args) > 0 && x.Call.Args[0] == px {
 				// any method that reads the exponent, the mantissa or the precision of its receiver
 				for _, f := range m.LoadSet(cal, 0) {
 					if f == m.F.Exp || f == m.F.Mant || f == m.F.Prec {
